@@ -40,7 +40,8 @@ PARTIAL = ('PROVED for every N and every data set (plain or uncertain x): the un
            'and the generated dChiSq_dalpha.__call__ is its derivative w.r.t. alpha (envelope argument), reading x**2 as x*x. '
            'NOT PROVED (WTLS): the adequacy of that reading for the kernel evaluator on a negative base (ChainRule.regular excludes it; tied by '
            'bit-exact correspondence), the constructors ChiSq/dChiSq_dalpha.__init__ (weights from the data or from u_x, u_y, r_xy), the '
-           'implicit-function step and the back-substitution a = p_hat/cos(alpha), b = tan(alpha) of the hand-modelled driver, the limit '
+           'implicit-function step and the back-substitution a = p_hat/cos(alpha), b = tan(alpha) of the hand-modelled driver (the choice of the '
+           'search interval handed to the minimiser IS modelled and compared bit for bit), the limit '
            'u(x) -> 0; the minimiser _dbrent is an oracle (alpha1 recorded), its convergence / stationarity is not proved. These parts are tied by '
            'bit-exact correspondence given alpha1 (quick tier N <= 5, thorough N <= 10) and by the numerical oracle (independent chi-squared '
            'minimisation + numerical differentiation, incl. correlated pairs, explicit weights, intermediate-result data, near-vertical lines).')
@@ -67,6 +68,16 @@ def gen_case(rng, ctx_id, kind, malformed=False, big=False, force=None):
     xv = sorted(rng.sample(range(0, 40), n)) if xkind == 'int' else \
          [round(i * rng.uniform(0.8, 1.2) + rng.uniform(0, 0.3), 3) for i in range(1, n + 1)]
     yv = [a0 + b0 * x + rng.gauss(0, 0.2) for x in xv]
+    if force == 'perp':
+        # ordinary data; the initial estimate given below is (almost) perpendicular to the best line
+        n = 3 if not big else rng.randint(3, 5)      # 39 evaluations of the chi-squared tree in the model
+        xv = [round(i * rng.uniform(0.8, 1.2) + rng.uniform(0, 0.3), 3) for i in range(1, n + 1)]
+        yv = [a0 + b0 * x + rng.gauss(0, 0.2) for x in xv]
+    if force == 'vdef':
+        # x far more uncertain than y and hardly related to it: the default (WLS) start is nearly horizontal,
+        # the best line nearly vertical
+        n = rng.randint(4, 5)
+        yv = [2.0 * i for i in range(n)]; xv = [round(1.0 + rng.uniform(-0.35, 0.35), 3) for _ in yv]
     if force == 'steep':
         # a near-vertical line; the initial estimate given below has the opposite slope sign, so the
         # minimiser converges to an angle beyond +-pi/2 (cos(alpha) < 0)
@@ -80,6 +91,7 @@ def gen_case(rng, ctx_id, kind, malformed=False, big=False, force=None):
     if kind == 'wtls' and rng.random() < 0.5: ystruct = 'pairs'
     if force == 'sysres': ystruct = 'sys'
     if force in ('explicit', 'steep'): ystruct = rng.choice(['indep', 'pairs'])
+    if force in ('perp', 'vdef'): ystruct = 'indep'
     s.ystruct = ystruct
     ys = []; data = []      # data: slots of elementary inputs to differentiate against
     def u_of(): return round(rng.uniform(0.05, 0.6), 3)
@@ -160,6 +172,9 @@ def gen_case(rng, ctx_id, kind, malformed=False, big=False, force=None):
             if mal == 'uxlen': u_x = u_x[:-1]
         if rng.random() < 0.3: a_b = (round(a0 + rng.uniform(-.2, .2), 3), round(b0 * rng.uniform(0.9, 1.1), 3))
         if force == 'steep': a_b = (0.0, round(rng.uniform(3, 6), 2))
+        if force == 'perp':
+            a_b = (0.0, math.tan(math.atan(b0) + math.pi / 2 + math.radians(0.25 * rng.randint(-12, 12))))
+        if force == 'vdef': a_b = None; u_x = [0.5] * len(xs); u_y = [0.1] * len(ys); r_xy = None
         r = s.fit_wtls(xs, ys, u_x, u_y, r_xy, a_b)
         if r is None:
             tbk = traceback.extract_tb(s.last_exn.__traceback__)
@@ -224,7 +239,7 @@ def correspondence(rng, tier):
         force = 'sysres' if (i in (2, 3, 4) or i % 23 == 9) else None
         if kind == 'wtls' and force is None:
             nw = sum(1 for t in sessions if t.kind == 'wtls')
-            force = {1: 'explicit', 2: 'steep'}.get(nw % 6)
+            force = {1: 'explicit', 2: 'steep', 3: 'perp', 4: 'vdef'}.get(nw % 6)
         s = gen_case(rng, 1 + i, kind, malformed=(i % 7 == 6 and force is None), big=(tier != 'quick'), force=force)
         i += 1
         if s.skip: skipped += 1; continue
@@ -248,12 +263,17 @@ def correspondence(rng, tier):
                              'ctx': s.ctx_id, 'implementation_output': s.outs[r_][:600] if r_ < len(s.outs) else None})
     for s in sessions:
         if not s.heap_ok: mism.append({'kind': 'vector-heap-corrupted', 'program': s.pyops, 'ctx': s.ctx_id})
+        if getattr(s, 'post', None):
+            mism.append({'kind': 'minimiser-result-not-stationary', 'program': s.pyops, 'ctx': s.ctx_id, 'detail': s.post})
+    sweep = minimiser_sweep(rng, tier)
+    mism += sweep['failures']
     stats = collections.Counter()
     for s in sessions:
         stats.update(s.stats); stats['kind_' + s.kind] += 1; stats['y_' + s.ystruct] += 1
         stats['N=%d' % s.nfit] += 1
         if s.mal: stats['malformed_' + s.mal] += 1
     stats['skipped_minimiser_raised'] = skipped
+    stats['minimiser_sweep_fits'] = sweep['fits']
     distinct = len(set(hashlib.sha1(repr(s.pyops).encode()).hexdigest() for s in sessions))
     if not mism: shutil.rmtree(d, ignore_errors=True)
     return {'programs': len(sessions), 'steps': sum(len(s.ops) for s in sessions), 'mismatches': mism,
@@ -267,6 +287,57 @@ def correspondence(rng, tier):
                     'constant y, identical x, zero u_y, plain x for WTLS, u_x without u_y, wrong length); every step output compared '
                     'bit for bit with the FNum model evaluating the GENERATED fit code; distinct by hash of the operation list',
             'samples': [{'program': [repr(p)[:200] for p in s.pyops[-6:]]} for s in sessions[:2]]}
+
+# ------------------------------------------------------------------ the oracle of the model: post-condition sweep
+def minimiser_sweep(rng, tier):
+    """_dbrent is an ORACLE of the model (its result alpha1 is an input of the fit operation), so its post-condition --
+    alpha1 is a stationary point of chi-squared inside the interval it was given -- is checked on the implementation
+    for starts the correspondence cases cannot enumerate: poor initial estimates a_b swept in 0.25 degree steps from -3 to
+    +3 degrees around the perpendicular of the best line (both sides), and the default start on near-vertical data with
+    u(x) >> u(y).  Only the implementation runs here (no Coq evaluation); a failure is reported like a mismatch."""
+    import tb_session as tb
+    from GTC import core, type_b
+    fails = []; fits = 0
+    nd = 2 if tier == 'quick' else 12
+    for j in range(nd):
+        xv, yv, ux, uy = rand_dataset(rng)
+        xv, yv, ux, uy = xv[:6], yv[:6], ux[:6], uy[:6]
+        new_context(15)
+        xs = [core.ureal(x, u) for x, u in zip(xv, ux)]; ys = [core.ureal(y, u) for y, u in zip(yv, uy)]
+        try:
+            b_ref = type_b.line_fit_wtls(xs, ys).a_b[1].x
+        except Exception:
+            continue
+        for k in range(-12, 13):
+            a_b = (0.0, math.tan(math.atan(b_ref) + math.pi / 2 + math.radians(0.25 * k)))
+            r = _sweep_one(tb, type_b, xs, ys, a_b)
+            fits += 1
+            if r: fails.append({'kind': 'minimiser-result-not-stationary', 'x': xv, 'y': yv, 'u_x': ux, 'u_y': uy, 'a_b': list(a_b),
+                                'k_quarter_degrees': k, 'detail': r})
+    for j in range(10 if tier == 'quick' else 80):
+        n = rng.randint(4, 7)
+        yv = [2.0 * i for i in range(n)]; xv = [round(1.0 + rng.uniform(-0.35, 0.35), 3) for _ in yv]
+        new_context(15)
+        xs = [core.ureal(x, 0.5) for x in xv]; ys = [core.ureal(y, 0.1) for y in yv]
+        r = _sweep_one(tb, type_b, xs, ys, None)
+        fits += 1
+        if r: fails.append({'kind': 'minimiser-result-not-stationary', 'x': xv, 'y': yv, 'u_x': 0.5, 'u_y': 0.1, 'a_b': None, 'detail': r})
+    return {'fits': fits, 'failures': fails[:5]}
+
+def _sweep_one(tb, type_b, xs, ys, a_b):
+    log = []
+    saved = type_b._dbrent
+    def wrapped(*a, **k):
+        r = saved(*a, **k); log.append((r[0], tuple(float(v) for v in a[:3]))); return r
+    type_b._dbrent = wrapped
+    try:
+        type_b.line_fit_wtls(xs, ys, a_b=a_b)
+    except Exception:
+        return None                      # the minimiser may raise (oracle); a silent wrong answer is what is checked
+    finally:
+        type_b._dbrent = saved
+    if not log: return None
+    return tb.minimiser_postcondition(type_b, xs, ys, None, None, None, log[-1][0], log[-1][1])
 
 # ------------------------------------------------------------------ oracle (search only)
 def _fr(x): return Fraction(x)
@@ -381,7 +452,7 @@ def wtls_solve(xv, yv, u2x, u2y, cov, alpha_start):
     c2, p = f(al)
     return p / math.cos(al), math.tan(al), al
 
-def check_wtls(xv, yv, ux, uy, rxy, explicit=False, interm=False, a_b=None, wx=None, wy=None):
+def check_wtls(xv, yv, ux, uy, rxy, explicit=False, interm=False, a_b=None, wx=None, wy=None, sens=True):
     """line_fit_wtls against an independent minimisation of the stated chi-squared and numerical differentiation of
     that estimator w.r.t. every datum.  Modes: correlations declared on the data / weights given as arguments
     (explicit: u_x = wx, u_y = wy, r_xy, different from the data's own uncertainties) / y data that are declared
@@ -422,6 +493,7 @@ def check_wtls(xv, yv, ux, uy, rxy, explicit=False, interm=False, a_b=None, wx=N
     c0 = chi2ab(A.x, B.x)
     if abs(c0 - fit.ssr) > 1e-6 * max(1.0, abs(fit.ssr)):
         return dict(base, what='ssr is not chi-squared at the returned (a, b)', got=fit.ssr, want=c0)
+    if not sens: return None
     def solve_at(xv2, yv2):
         return wtls_solve(xv2, yv2, u2x, u2y, cov, al)
     sa_sum = sb_sum = 0.0; ok_sum = True
@@ -503,7 +575,7 @@ def search(rng, tier, broken):
         tried += 1
         try:
             if kind == 'wtls':
-                mode = (i // 3) % 6
+                mode = (i // 3) % 8
                 rxy = [round(rng.uniform(-0.6, 0.6), 2) if rng.random() < 0.4 else 0 for _ in xv]
                 if mode == 0: r = check_wtls(xv, yv, ux, uy, rxy)                      # correlations declared on the data
                 elif mode == 1:                                                         # weights as arguments, all different
@@ -515,6 +587,18 @@ def search(rng, tier, broken):
                     r = check_wtls(xv, yv, ux, uy, [0] * len(xv), a_b=(0.0, round(rng.uniform(3, 6), 2)))
                 elif mode == 4:                                                         # any initial estimate, however poor
                     r = check_wtls(xv, yv, ux, uy, rxy, a_b=(round(rng.uniform(-5, 5), 2), round(rng.choice([-1, 1]) * 10 ** rng.uniform(-2, 2), 3)))
+                elif mode == 5:                                                         # starts swept around the perpendicular of the best line
+                    from GTC import core as _c, type_b as _tb
+                    new_context(9)
+                    b_ref = _tb.line_fit_wtls([_c.ureal(x, u) for x, u in zip(xv, ux)], [_c.ureal(y, u) for y, u in zip(yv, uy)]).a_b[1].x
+                    r = None
+                    for k in range(-12, 13):
+                        r = check_wtls(xv, yv, ux, uy, [0] * len(xv), a_b=(0.0, math.tan(math.atan(b_ref) + math.pi / 2 + math.radians(0.25 * k))), sens=(k == 0))
+                        if r is not None: break
+                elif mode == 6:                                                         # default start, u(x) >> u(y), best line nearly vertical
+                    n_ = rng.randint(4, 7)
+                    yv = [2.0 * i_ for i_ in range(n_)]; xv = [round(1.0 + rng.uniform(-0.35, 0.35), 3) for _ in yv]
+                    r = check_wtls(xv, yv, [0.5] * n_, [0.1] * n_, [0] * n_, sens=False)
                 else: r = check_labels(xv, yv, uy)
             else:
                 x_unc = rng.random() < 0.4
